@@ -5921,8 +5921,16 @@ class CodegenCtx:
         result.add("// transitions")
         generated_if = False
         
+        # Once the accepting state has been reached the parse is complete: input that could only be
+        # handled as an error there means "nothing more to match", which is DONE rather than a failure.
+        live_transitions = state.transitions
+        if state in self.dfa.accepting_states:
+            live_transitions = [x for x in state.transitions if not x.error_handling]
+            if actual_else_transition is not None and actual_else_transition.error_handling:
+                actual_else_transition = None
+
         # Create all transition if cases
-        for j, transition in enumerate((x for x in state.transitions if x != actual_else_transition)):
+        for j, transition in enumerate((x for x in live_transitions if x != actual_else_transition)):
             cond_name = "else if"
             conditions = self._generate_condition_for_transition(transition)
             if not conditions:
@@ -6007,8 +6015,9 @@ class CodegenCtx:
 
         result.add("// possible end transitions")
         
-        # Create all transitions for possible conditions
-        if unconditional_end_transition:
+        # Create all transitions for possible conditions (an accepting state ignores its error
+        # handling, as in _generate_switch_body)
+        if unconditional_end_transition and not (state in self.dfa.accepting_states and unconditional_end_transition.error_handling):
             result += self._generate_transition_body(unconditional_end_transition, True)
 
         if state in self.dfa.accepting_states:
